@@ -80,6 +80,7 @@ func (c *Ctx) thorough(pd *propDef) {
 		c.undecided("THOROUGH/GOARCH", "386", "", "model cannot be built for GOARCH=386: "+err.Error())
 	} else {
 		c2 := &Ctx{P: P2, M: M2, Prop: c.Prop, Tier: c.Tier, start: c.start}
+		curP = c2.P
 		pd.Rules(c2)
 		bad := 0
 		have := map[string]bool{}
